@@ -696,6 +696,74 @@ theorem T5_reannounce_when_no_candidate_is_left (guard : Bool) (c c' : CState) (
       · rename_i hg; simp at hg; exact hg.2
       · rfl
 
+/-- A run of peer commands. -/
+def runPeers (guard : Bool) : CState → List Ev → Option CState
+  | c, [] => some c
+  | c, ev :: evs =>
+    match bkstep guard c (.peer ev) with
+    | some (c', _) => runPeers guard c' evs
+    | none => none
+
+/-- Every command of the run is a lost connection or is answered "nothing (more) to get", and pieces are still
+    missing after it. -/
+def DryRun (guard : Bool) : CState → List Ev → Prop
+  | _, [] => True
+  | c, ev :: evs => ∃ c' r, bkstep guard c (.peer ev) = some (c', r) ∧
+      (isKill ev = true ∨ nothingToGet ev r = true) ∧ c'.complete = false ∧ DryRun guard c' evs
+
+theorem dry_step_cands (guard : Bool) (c c' : CState) (ev : Ev) (r : Reply)
+    (h : bkstep guard c (.peer ev) = some (c', r)) (hdry : isKill ev = true ∨ nothingToGet ev r = true)
+    (hmiss : c'.complete = false) : c'.cands = c.cands.dropLast := by
+  cases hl : c.cands.getLast? with
+  | some a => exact (T5_dry_peer_brings_the_next_candidate guard c c' ev r a h hdry hmiss hl).1
+  | none =>
+    have hnil : c.cands = [] := List.getLast?_eq_none_iff.mp hl
+    have key : c.cands = c.cands.dropLast := by simp [hnil]
+    simp only [bkstep] at h
+    split at h
+    · cases h
+    · rename_i x' r' hx
+      split at h
+      · split at h
+        · cases h; exact key
+        · simp only [hnil, List.isEmpty_nil, if_true, Option.some.injEq, Prod.mk.injEq] at h
+          rw [← h.1]
+          unfold spawnTracker
+          split <;> simp [hnil]
+      · split at h
+        · cases h
+          unfold tryNext
+          split
+          · exact key
+          · rw [spawnOne_cands]
+        · cases h; exact key
+
+/-- **T5d (C02, manager model).** However many candidates are queued: a run of `n` commands each of which is a lost
+    connection or a peer running dry (pieces still missing) takes exactly the last `n` candidates off the list — so
+    after as many such commands as there are candidates none is left waiting, and (T5a) each of them has had its
+    connection task started or had a connection already. No listed peer is left out for ever behind peers that stay
+    connected without anything for us. -/
+theorem T5_every_candidate_gets_its_turn (guard : Bool) (c : CState) (evs : List Ev) (h : DryRun guard c evs) :
+    ∃ c', runPeers guard c evs = some c' ∧ c'.cands = c.cands.take (c.cands.length - evs.length) := by
+  induction evs generalizing c with
+  | nil => exact ⟨c, rfl, by simp⟩
+  | cons ev evs ih =>
+    obtain ⟨c1, r, hs, hdry, hmiss, hrest⟩ := h
+    obtain ⟨c', hrun, hc⟩ := ih c1 hrest
+    refine ⟨c', by simp [runPeers, hs, hrun], ?_⟩
+    rw [hc, dry_step_cands guard c c1 ev r hs hdry hmiss, List.dropLast_eq_take, List.take_take]
+    congr 1
+    simp only [List.length_take, List.length_cons]
+    omega
+
+theorem T5_no_candidate_left_waiting (guard : Bool) (c : CState) (evs : List Ev) (h : DryRun guard c evs)
+    (hlen : c.cands.length ≤ evs.length) : ∃ c', runPeers guard c evs = some c' ∧ c'.cands = [] := by
+  obtain ⟨c', h1, h2⟩ := T5_every_candidate_gets_its_turn guard c evs h
+  refine ⟨c', h1, ?_⟩
+  rw [h2]
+  have : c.cands.length - evs.length = 0 := by omega
+  simp [this]
+
 /-- Non-vacuity (tests): twelve peers listed, eleven contacted at the reply, the twelfth when one of them runs dry. -/
 example : ((bkstep true (cinit 1) (.trackerResp (List.range 12))).map fun p => (p.1.cands, p.1.contacted.length)) =
     some ([0], 11) := by decide
